@@ -776,6 +776,14 @@ func main() {
 	partFetch()
 	partSetters()
 	partHistory()
+	run.Races(func(rep string) string {
+		for _, frag := range []string{"/repo/types/manifest/", "/repo/scheme/reg/manifest.go", "/repo/internal/cache/", "/repo/scheme/ocidir/manifest.go"} {
+			if fn := ev.RaceFrame(rep, frag); fn != "" {
+				return "race/manifest/" + fn
+			}
+		}
+		return ""
+	})
 	if run.Get("manifest_objects_checked") < 1000 || run.Get("setter_states_checked") < 1000 || run.Get("repush_bodies_compared") < 100 || run.Get("second_gets_checked") < 100 {
 		run.Inconclusive("too few objects / edit states / re-push bodies / second gets checked")
 	}
